@@ -20,12 +20,14 @@ package bcl
 //
 // Diagnostics of the VM (C08): the position reported is the recorded source
 // position of the last byte of the instruction being executed (pc is past its operands).
+//@ ghost var rterrs int    // errors built by (*vm).runtimeError (they carry the position of the failing instruction)
 //@ group C08,C06
 //@ func (*vm).runtimeError
 //@   requires position_known: vm.prog != nil && vm.prog.linePos != nil && 1 <= vm.pc && vm.pc <= len(vm.prog.positions)
 //@   assert [C08] position_of_the_failing_instruction: at format#1: $pos == vm.prog.positions[vm.pc-1]
 //@   ensures is_error: result != nil
 //@   modifies nothing
+//@   ghost rterrs = g.rterrs + 1
 //@ func (*vm).warning
 //@   requires position_known: vm.prog != nil && vm.prog.linePos != nil && 1 <= vm.pc && vm.pc <= len(vm.prog.positions)
 //@   assert [C08] position_of_the_warned_instruction: at format#1: $pos == vm.prog.positions[vm.pc-1]
@@ -39,6 +41,7 @@ package bcl
 //@   assert [C19] the_trace_shows_the_state_before_the_instruction_runs: at printStack#1: vm.pc == prev(vm.pc) && vm.tos == prev(vm.tos)
 //@   assert [C19] every_instruction_is_traced_at_its_own_offset_before_it_runs: at disasmInstr#1: $offset == prev(vm.pc) && vm.pc == prev(vm.pc)
 //@   assert [C01,C19] print_goes_to_the_output_writer: at Fprintln#1: $w == vm.output
+//@   ensures [C08] every_runtime_error_carries_the_position_of_the_failing_instruction: result != nil ==> g.rterrs > old(g.rterrs) || (vm.tos != 0 && vm.pc >= 1 && vm.prog.code[vm.pc-1] == byte(opRET))
 //@   requires prog_set: vm.prog != nil && vm.prog.linePos != nil
 //@   requires initial: vm.tos == 0 && vm.blockTos == 0 && vm.pc == 0
 //
